@@ -28,6 +28,10 @@ Damaged(ev) == Has(ev, "dmg") /\ \E i \in 1..Len(ev.dmg) : ev.dmg[i] # 0
 ValidIdx(ev) == {ev.idx[i] : i \in {j \in 1..Len(ev.idx) :
                    (~Has(ev, "dmg")) \/ ev.dmg[j] = 0 \/ (ev.dmg[j] = 1 /\ ev.ct # 2)}}
 
+\* damage kinds 9 (magic) and 10 (metadata bytes vs stored metadata CRC) make the HEADER unacceptable: C09 has decode
+\* fail with the bad-header error for such a fragment whether or not checks are forced, so for those events C20 only
+\* demands that no wrong bytes come back
+HeaderRefused(ev) == Has(ev, "dmg") /\ \E i \in 1..Len(ev.dmg) : ev.dmg[i] \in {9, 10}
 DecViol(ev) ==
    LET sup == Supplied(ev)
        missing == MissingOf(ev, sup)
@@ -37,7 +41,7 @@ DecViol(ev) ==
          THEN {"C01 tolerated erasure set not decoded"} ELSE {})
    \cup (IF Damaged(ev) /\ ev.force # 0 /\ ev.ct = 2 /\ ev.rc = 0 /\ ev.match # 1
          THEN {"C20 forced checks: invalid fragment changed the result"} ELSE {})
-   \cup (IF Damaged(ev) /\ ev.force # 0 /\ ev.ct = 2 /\ Tolerated(ev, MissingOf(ev, ValidIdx(ev))) /\ ~ok
+   \cup (IF Damaged(ev) /\ ~HeaderRefused(ev) /\ ev.force # 0 /\ ev.ct = 2 /\ Tolerated(ev, MissingOf(ev, ValidIdx(ev))) /\ ~ok
             /\ ~(ev.rc < 0 /\ RefusalExcused(ev, MissingOf(ev, ValidIdx(ev))))
          THEN {"C20 forced checks: valid fragments suffice but decode failed"} ELSE {})
    \cup (IF ev.unch # 1 THEN {"C15 input fragment modified"} ELSE {})
